@@ -77,6 +77,8 @@ type c03Res struct {
 	Speculative int           `json:"speculative_reads,omitempty"` // READs of a concurrent WriteTo beyond the chunk that reported EOF
 	Trace      []string       `json:"trace,omitempty"`
 	Conn       *connLine      `json:"conn,omitempty"` // the recorded schedule as conn.run tokens + observed outcomes
+	ChanObs    []string       `json:"chan_obs,omitempty"` // the same window for chan.run: a<sid>/<channel class>, r<sid>:<tag> (cli_chan.go)
+	ChanClass  map[string]int `json:"chan_classes,omitempty"`
 	Fails      []c20Fail      `json:"fails,omitempty"`
 	ExitNow    bool           `json:"-"`
 }
@@ -321,6 +323,7 @@ func c03Run(cs c03Case) (res c03Res) {
 	}
 	var wireCanon []string // canonical text of every request in arrival order
 	var evs []connEv       // arrivals and replies in the order the peer saw / sent them (window of ConnCap requests)
+	evCanon := map[uint32]string{}
 	evStop := cs.ConnCap <= 0
 	arrivals := 0
 	var trace []string
@@ -351,6 +354,7 @@ func c03Run(cs c03Case) (res c03Res) {
 			}
 			if !evStop {
 				evs = append(evs, connEv{K: "a", ID: q.ID})
+				evCanon[q.ID] = c03Canon(q)
 			}
 			if len(trace) < 64 {
 				trace = append(trace, fmt.Sprintf("send#%d %s", q.ID, c03Canon(q)))
@@ -493,6 +497,26 @@ func c03Run(cs c03Case) (res c03Res) {
 		issued = append(issued, s...)
 		issuedMu.Unlock()
 	}
+	// how the result channels of multi-request calls are obtained (cli_chan.go): work items of the concurrent
+	// paths take pooled channels, the sequential loops re-use one channel
+	chanPool := map[string]int{}
+	var chanSeq [][]string
+	issuePool := func(s ...string) {
+		issue(s...)
+		issuedMu.Lock()
+		for _, x := range s {
+			chanPool[x]++
+		}
+		issuedMu.Unlock()
+	}
+	issueSeq := func(s ...string) {
+		issue(s...)
+		if len(s) > 0 {
+			issuedMu.Lock()
+			chanSeq = append(chanSeq, s)
+			issuedMu.Unlock()
+		}
+	}
 	var shared, xsh *sftp.File
 	var smu, xmu sync.Mutex // Seek+transfer on a shared File is one step of ONE caller (the offset is the File's)
 	var optTails []c03OptTail
@@ -530,6 +554,25 @@ func c03Run(cs c03Case) (res c03Res) {
 			}
 		}
 		return out
+	}
+	// a multi-chunk ReadAt takes pooled channels unless concurrent reads are off (then every chunk is a sync call);
+	// a multi-chunk WriteAt takes pooled channels with concurrent writes, else it is a loop with one reusable channel
+	issueReadAt := func(h string, off uint64, n int) {
+		if n > mp && cs.Reads != "off" {
+			issuePool(chunks(h, "read", off, n)...)
+		} else {
+			issue(chunks(h, "read", off, n)...)
+		}
+	}
+	issueWriteAt := func(h string, off uint64, n int) {
+		switch {
+		case n <= mp:
+			issue(chunks(h, "write", off, n)...)
+		case cs.ConcW:
+			issuePool(chunks(h, "write", off, n)...)
+		default:
+			issueSeq(chunks(h, "write", off, n)...)
+		}
 	}
 	var wg sync.WaitGroup
 	var cmu sync.Mutex
@@ -635,7 +678,7 @@ func c03Run(cs c03Case) (res c03Res) {
 						}
 						b := make([]byte, n)
 						m, err := f.ReadAt(b, int64(off))
-						issue(chunks(h, "read", off, n)...)
+						issueReadAt(h, off, n)
 						opErr = err
 						if m != n {
 							got = fmt.Sprintf("n=%d", m)
@@ -656,7 +699,7 @@ func c03Run(cs c03Case) (res c03Res) {
 							}
 						}
 						m, err := f.WriteAt(cliPatternBytes(h, off, n), int64(off))
-						issue(chunks(h, "write", off, n)...)
+						issueWriteAt(h, off, n)
 						opErr = err
 						got, want = fmt.Sprint(m), fmt.Sprint(n)
 					case "fstat-shared", "fstat-xsh":
@@ -676,7 +719,7 @@ func c03Run(cs c03Case) (res c03Res) {
 						o := uint64(rng.Int63n(int64(xshSize) - int64(n) + 1))
 						b := make([]byte, n)
 						m, err := xsh.ReadAt(b, int64(o))
-						issue(chunks(h, "read", o, n)...)
+						issueReadAt(h, o, n)
 						opErr = err
 						if m != n {
 							got, want = fmt.Sprintf("n=%d", m), fmt.Sprintf("n=%d", n)
@@ -687,7 +730,7 @@ func c03Run(cs c03Case) (res c03Res) {
 						h := "h:" + xshPath
 						n := 1 + rng.Intn(3*mp)
 						m, err := xsh.WriteAt(cliPatternBytes(h, off, n), int64(off))
-						issue(chunks(h, "write", off, n)...)
+						issueWriteAt(h, off, n)
 						opErr = err
 						got, want = fmt.Sprint(m), fmt.Sprint(n)
 					case "writeto-fresh", "writeto-xsh":
@@ -725,7 +768,11 @@ func c03Run(cs c03Case) (res c03Res) {
 							}
 						}
 						reads, optFrom := c03WriteToReads(h, o, size, mp, sequential)
-						issue(reads...)
+						if sequential {
+							issueSeq(reads...) // writeToSequential: one reusable channel
+						} else {
+							issuePool(reads...)
+						}
 						if optFrom >= 0 {
 							issuedMu.Lock()
 							optTails = append(optTails, c03OptTail{h, optFrom, mp})
@@ -771,7 +818,8 @@ func c03Run(cs c03Case) (res c03Res) {
 						}
 						data := cliPatternBytes(h, o, n)
 						var src io.Reader
-						switch rk := rng.Intn(5); rk {
+						rk := rng.Intn(5)
+						switch rk {
 						case 0:
 							src = bytes.NewReader(data) // Len()
 						case 1:
@@ -790,7 +838,11 @@ func c03Run(cs c03Case) (res c03Res) {
 						} else {
 							m, err = f.ReadFrom(src)
 						}
-						issue(chunks(h, "write", o, n)...)
+						if strings.HasPrefix(kind, "readfromconc") || (cs.ConcW && rk <= 3 && n > mp) {
+							issuePool(chunks(h, "write", o, n)...) // readFromWithConcurrency
+						} else {
+							issueSeq(chunks(h, "write", o, n)...) // ReadFrom's loop: one reusable channel
+						}
 						opErr = err
 						got, want = fmt.Sprint(m), fmt.Sprint(n)
 						if strings.HasSuffix(kind, "-fresh") && err == nil {
@@ -925,6 +977,9 @@ func c03Run(cs c03Case) (res c03Res) {
 		}
 		l := connObs{Events: evs, Base: evs[0].ID - 1, Known: known}.build()
 		res.Conn = &l
+		k := &chanClassifier{seq: chanSeq, pool: chanPool, tails: optTails}
+		res.ChanObs = chanObsTokens(evs, evs[0].ID-1, evCanon, k)
+		res.ChanClass = k.Counts
 	}
 	return
 }
@@ -1086,6 +1141,9 @@ func checkC03(c *lib.Ctx) {
 	var connLines []connLine
 	var connInputs []any
 	connReqs := 0
+	var chanObs [][]string
+	var chanInputs []any
+	var chanFam []string
 	var ctxSample []string
 	for i, cs := range cases {
 		canon, _ := json.Marshal(cs)
@@ -1119,6 +1177,22 @@ func checkC03(c *lib.Ctx) {
 			connLines = append(connLines, *res.Conn)
 			connInputs = append(connInputs, cs)
 			connReqs += res.Conn.NReq
+		}
+		fam := map[bool]string{true: "shared-file-and-transfers", false: "shared-file"}[cs.Xfer]
+		if cs.Kind == "ctx" {
+			fam = "abandoned-request"
+		}
+		if len(res.ChanObs) > 0 {
+			chanObs = append(chanObs, res.ChanObs)
+			chanInputs = append(chanInputs, cs)
+			chanFam = append(chanFam, fam)
+			for k, v := range res.ChanClass {
+				r.Histogram["chan-model/request-class/"+k] += v
+			}
+		} else if len(res.Fails) > 0 {
+			r.Hist("chan-model/skipped/run-failed-its-direct-oracle/" + fam)
+		} else {
+			r.Hist("chan-model/skipped/connection-failed-cleanly-or-no-window/" + fam)
 		}
 		calls += res.Calls
 		reqs += res.Requests
@@ -1190,6 +1264,9 @@ func checkC03(c *lib.Ctx) {
 	r.Note("%d calls and %d requests in %d runs; %d batches answered out of arrival order; %d runs crossed the id wrap-around 2^32-1 → 0", calls, reqs, len(cases), reordered, wrapped)
 	n := connCompare(c, "c03", connLines, connInputs)
 	r.Note("connection model: %d recorded schedules (%d requests with their replies in the order the peer saw and sent them; window = first %d requests of a run) replayed with conn.run and compared (enabledness, per-request outcome, wire, closed, framed, recv)", n, connReqs, cases[0].ConnCap)
+	nch := chanCompare(c, "c03", chanObs, chanInputs, chanFam)
+	r.Note("result-channel model: %d recorded schedules (the same windows) replayed with chan.run and compared: the model accepts the schedule; foreign=0; dead=0; every answered request's caller received exactly the reply to its own sid with the payload tag of the frame the peer sent; every abandoned request's caller received nothing and is in gaveup. Channel classes by the operation that issued the request: sync call (fresh channel, dropped), victim (fresh, abandoned at the cancel, late reply delivered to the orphan channel), pooled work item (Get: lowest pooled channel or fresh; Put after the receive), sequential loop (one channel, re-used after each receive, dropped at the end)", nch)
+	r.Note("not expressible / not observable for chan.run: channel identities and the moments of Get / receive / Put inside the package (any assignment consistent with the wire and reply order is chosen: acquire+dispatch at the arrival, receive+release right after the reply); the per-invocation pools of the code (the model has one pool); which speculative READ of a concurrent WriteTo was orphaned by the feeder's cancel arm (all are replayed as received and Put); Put on a full pool; the part of a run beyond the window; runs whose connection failed cleanly after a late reply")
 	r.Note("not expressible in conn.run tokens: the cancellation of a context (the abandoned caller is left waiting, outcome `pending`, and the late reply lands in its channel); the result channels SHARED by the chunks of File transfers (resChanPool; the model gives every request its own channel); the preset id counter near 2^32 (ids are renumbered from 1: the model's wrap-around needs 2^32 callers); the interleaving of putChannel/Lock between callers (chosen consistent with the observed wire order)")
 }
 
